@@ -302,9 +302,10 @@ def _fx(x):
     return v
 
 
-def observe(case, ser, with_vel=False, rhs_seed=0):
+def observe(case, ser, with_vel=False, rhs_seed=0, keep=None):
     """Run the series through the real code; returns the list of trace events.
-    C12 events: Env, NewSession, PointByMap*.  C13 events (with_vel): Velocity*, RHS*, SysVel."""
+    C12 events: Env, NewSession, PointByMap*.  C13 events (with_vel): Velocity*, RHS*, SysVel.
+    keep (optional dict) receives the live objects (sess, frames, ids, inv) for observers that go on (observe_accel)."""
     import forsys as fs
     from harness import build
     from forsys.exceptions import DifferentTissueException
@@ -332,6 +333,8 @@ def observe(case, ser, with_vel=False, rhs_seed=0):
         sess = fs.ForSys(frames, cm=ser["cm"], initial_guess=guess)
     except Exception as exc:
         raised = type(exc).__name__
+    if keep is not None:
+        keep.update(sess=sess, frames=frames, ids=ids, inv=inv)
     # positions as the code sees them after construction (cm shifts the frames in place)
     allx = [v.x for f in range(nf) for v in frames[f].vertices.values() if v.id in inv[f]]
     ally = [v.y for f in range(nf) for v in frames[f].vertices.values() if v.id in inv[f]]
@@ -488,4 +491,191 @@ def observe(case, ser, with_vel=False, rhs_seed=0):
         if not e["built_raised"]:
             e["used"] = used_sets()
     evs.append(e)
+    return evs
+
+
+# ------------------------------------------------------------------------------------------------
+# accelerations (extension check `accel`): three-frame integer instances of MC_Accel, observer
+# ------------------------------------------------------------------------------------------------
+def necklace_series_n(inst, seed):
+    """nf-frame series for an MC_Accel instance: inst = {n, nf, pos[f][p], ords[f] (physical vertices in dict order),
+    present[f][p], stamps[f]}. Each frame is a necklace mesh over the sites present in that frame (>= 3), embedded
+    exactly (dyadic scale, integer shift, the same for all frames)."""
+    rng = random.Random(seed)
+    n, nf = inst["n"], inst["nf"]
+    scale = rng.choice([1.0, 1.0, 0.5, 2.0, 4.0])
+    tx, ty = rng.randrange(-40, 41), rng.randrange(-40, 41)
+    emb = lambda p: (scale * (p[0] + tx), scale * (p[1] + ty))
+    descs, ids = [], []
+    for f in range(nf):
+        here = [p for p in range(1, n + 1) if inst["present"][f][p - 1]]
+        local = {p: i + 1 for i, p in enumerate(here)}
+        d, j = necklace_desc([emb(inst["pos"][f][p - 1]) for p in here], [local[p] for p in inst["ords"][f]], rng)
+        descs.append(d)
+        ids.append({p: j[local[p]] for p in here})
+    st = inst.get("stamps", list(range(nf)))
+    return {"kind": "mc", "src": "mc3", "nf": nf, "np": n, "descs": descs, "ids": ids,
+            "times": [float(t) for t in st], "cm": False, "guess": {f: {} for f in range(nf)},
+            "exact": {"scale": scale, "tx": tx, "ty": ty}}
+
+
+def random_series_min3(seed, big=False):
+    """the first of random_series(seed + 7919 j), j = 0, 1, .., that has at least three frames"""
+    j = 0
+    while True:
+        ser = random_series(seed + 7919 * j, big)
+        if ser["nf"] >= 3:
+            return ser
+        j += 1
+
+
+_ACC_CODES = {"DifferentTissueException": -2, "AttributeError": -3, "KeyError": -4}
+
+
+def _acc_entry(fn):
+    """[code, ax, ay]: 1 value, 0 NaN, -2 DifferentTissueException, -3 AttributeError, -4 KeyError, -5 other exception,
+    -6 outside the fixed-point range"""
+    try:
+        a = fn()
+    except Exception as exc:
+        return [_ACC_CODES.get(type(exc).__name__, -5), 0, 0], None
+    with np.errstate(all="ignore"):
+        if np.any(np.isnan(a)):
+            return [0, 0, 0], None
+        try:
+            return [1, _fx(a[0]), _fx(a[1])], (float(a[0]), float(a[1]))
+        except OverflowError:
+            return [-6, 0, 0], None
+
+
+def _scalar_entry(x):
+    """[has, value]: 1 value, 0 NaN, -6 outside the fixed-point range"""
+    with np.errstate(all="ignore"):
+        if x is None or np.isnan(x):
+            return [0, 0]
+        try:
+            return [1, _fx(x)]
+        except OverflowError:
+            return [-6, 0]
+
+
+def observe_accel(case, ser, rhs_seed=0):
+    """Events of observe() (Env, NewSession, PointByMap*) followed by
+       Velocity  t, vel[p], raised, oor                        (as for C13; used by velocity_per_edge)
+       Accel     t, acc[p] = [code, ax, ay] (-1 = vertex absent), macc[p] (exact instances: model integers)
+       AccRHS    t, rowof[p], rows_outside, nrows, b[], bnan[] (rows holding NaN), avg, built_raised, raised, oor
+       EdgeRows  kind acc|vel, t0, t1, k, ends [p0, p1], row [[has, value]..], raised
+       Whole     t, rows [[p0, p1, has, value]..] per interface of frame t, extra (keys beyond), raised"""
+    import forsys as fs  # noqa: F401
+    from forsys.exceptions import DifferentTissueException
+    keep = {}
+    evs = observe(case, ser, with_vel=False, rhs_seed=rhs_seed, keep=keep)
+    sess = keep.get("sess")
+    if sess is None:
+        return evs
+    frames, ids, inv = keep["frames"], keep["ids"], keep["inv"]
+    nf, NP = ser["nf"], ser["np"]
+    mesh = sess.mesh
+    rng = random.Random(rhs_seed * 7 + 3)
+    # ---- velocities (same logging as observe(with_vel=True)) ---------------------------------------
+    for f in range(nf):
+        vel, rs, oor = [[0, 0, 0] for _ in range(NP)], "", False
+        for p in range(1, NP + 1):
+            vid = ids[f].get(p)
+            if vid is None:
+                continue
+            try:
+                v = mesh.calculate_velocity(vid, f)
+                vel[p - 1] = [1, _fx(v[0]), _fx(v[1])]
+            except DifferentTissueException:
+                rs = "DifferentTissueException"
+                break
+            except OverflowError:
+                oor = True
+                break
+            except Exception as exc:
+                rs = type(exc).__name__
+                break
+        evs.append({"case": case, "ev": "Velocity", "t": f, "vel": [] if (rs or oor) else vel, "raised": rs, "oor": oor})
+    if nf < 3:       # calculate_acceleration is documented to need three time points: rejected input
+        return evs
+    # ---- accelerations of every tracked vertex of every frame ---------------------------------------
+    exact = ser["exact"]
+    for f in range(nf):
+        acc = [[-1, 0, 0] for _ in range(NP)]
+        macc = [[-1, 0, 0] for _ in range(NP)]
+        for p in range(1, NP + 1):
+            vid = ids[f].get(p)
+            if vid is None or vid not in frames[f].vertices:
+                continue
+            acc[p - 1], raw = _acc_entry(lambda: mesh.calculate_acceleration(vid, f))
+            macc[p - 1] = [acc[p - 1][0], 0, 0]
+            if exact is not None and raw is not None:
+                macc[p - 1] = [1, int(round(raw[0] / exact["scale"])), int(round(raw[1] / exact["scale"]))]
+        e = {"case": case, "ev": "Accel", "t": f, "acc": acc}
+        if exact is not None:
+            e["macc"] = macc
+        evs.append(e)
+    # ---- right-hand side in acceleration mode ------------------------------------------------------
+    if ser["kind"] != "mc":      # the necklace mesh has no junction with three internal interfaces: no equations
+        for f in sorted({0, rng.randrange(nf), nf - 1}):
+            e = {"case": case, "ev": "AccRHS", "t": f, "built_raised": "", "raised": "", "rowof": [], "rows_outside": 0,
+                 "nrows": 0, "b": [], "bnan": [], "avg": 0, "oor": False}
+            fm = None
+            try:
+                sess.build_force_matrix(when=f, angle_limit=np.inf)
+                fm = sess.force_matrices[f]
+            except Exception as exc:
+                e["built_raised"] = type(exc).__name__
+            if fm is not None:
+                rowof = [-1] * NP
+                for v, r in fm.map_vid_to_row.items():
+                    if int(v) in inv[f]:
+                        rowof[inv[f][int(v)] - 1] = int(r)
+                    else:
+                        e["rows_outside"] += 1
+                e["rowof"] = rowof
+                try:
+                    b, avg = fm.set_velocity_matrix(mesh, b_matrix="acceleration")
+                    flat = [float(x) for x in np.asarray(b, float).flatten()]
+                    e["nrows"] = len(flat)
+                    with np.errstate(all="ignore"):
+                        e["bnan"] = [i for i, x in enumerate(flat) if math.isnan(x)]
+                        e["b"] = [0 if math.isnan(x) else _fx(x) for x in flat]
+                    e["avg"] = _fx(avg)
+                except OverflowError:
+                    e["oor"], e["b"], e["bnan"] = True, [], []
+                except Exception as exc:
+                    e["raised"] = type(exc).__name__
+            evs.append(e)
+    # ---- per-interface rows ----------------------------------------------------------------------
+    spans = [(0, nf)]
+    t0 = rng.randrange(1, nf)
+    spans.append((t0, nf))
+    if nf > 3:
+        spans.append((0, nf - 1))
+    for kind, fn in (("acc", mesh.acceleration_per_edge), ("vel", mesh.velocity_per_edge)):
+        for a, b_ in spans:
+            ne = len(frames[a].big_edges_list)
+            ks = list(range(ne)) if ne <= 5 else sorted(rng.sample(range(ne), 5))
+            for k in ks:
+                be = frames[a].big_edges_list[k]
+                e = {"case": case, "ev": "EdgeRows", "kind": kind, "t0": a, "t1": b_, "k": k,
+                     "ends": [inv[a].get(int(be[0]), -1), inv[a].get(int(be[-1]), -1)], "row": [], "raised": ""}
+                try:
+                    e["row"] = [_scalar_entry(x) for x in fn(k, a, b_)]
+                except Exception as exc:
+                    e["raised"] = type(exc).__name__
+                evs.append(e)
+    for f in range(nf):
+        bel = frames[f].big_edges_list
+        e = {"case": case, "ev": "Whole", "t": f, "rows": [], "extra": 0, "raised": ""}
+        try:
+            res = mesh.whole_tissue_acceleration(f)
+            e["extra"] = len([k for k in res.keys() if not (0 <= k < len(bel))])
+            e["rows"] = [[inv[f].get(int(be[0]), -1), inv[f].get(int(be[-1]), -1)] + _scalar_entry(res.get(k))
+                         for k, be in enumerate(bel)]
+        except Exception as exc:
+            e["raised"] = type(exc).__name__
+        evs.append(e)
     return evs
